@@ -46,9 +46,12 @@ Print Assumptions C45_unfixed_refuted.
 
 (* Tie T: in the source, the loop over the selector sets of `matches` returns
    only `true` from inside the loop and `false` after it; `matchesAll` returns
-   `false` inside its loop over selectors and `true` after it. *)
-Theorem C45_loop_shape : loop_shape_ok = true.
-Proof. exact loop_shape. Qed.
+   `false` inside its loop over selectors and `true` after it; filterRulesByMatchers
+   calls only len / r.GetLabels / matches, and matches for every rule outside any
+   `if` (the verdict of a rule depends on that rule and the selectors only:
+   C45_filter_rules). *)
+Theorem C45_loop_shape : loop_shape_ok = true /\ filter_per_rule_ok = true.
+Proof. exact (conj loop_shape filter_per_rule). Qed.
 Print Assumptions C45_loop_shape.
 
 
